@@ -27,6 +27,7 @@ import (
 	"encoding/json"
 	"fmt"
 	"hash/fnv"
+	"os"
 	"reflect"
 	"sort"
 	"strings"
@@ -65,7 +66,7 @@ func evalOptionValues(k reflect.Kind) []string {
 // valueOps: the operation alphabet. The last two entries are auxiliary (the combined
 // observation and the measured count of structs with a gap that is not their last
 // child); nAlpha is the size of the alphabet proper.
-func valueOps() (ops []vop, nAlpha int, obs int, gapc int) {
+func valueOps() (ops []vop, nAlpha int, obs int, gapc int, groups [][]int) {
 	pr := func(e string) string { return "(" + e + ") | tojson | println" }
 	ops = []vop{
 		{"tovalue", pr("tovalue")},
@@ -86,7 +87,18 @@ func valueOps() (ops []vop, nAlpha int, obs int, gapc int) {
 			continue
 		}
 		key := snake(f.Name)
-		for _, v := range evalOptionValues(f.Type.Kind()) {
+		vs := evalOptionValues(f.Type.Kind())
+		if vs == nil {
+			continue
+		}
+		// the operations of one option field: both functions without options and with
+		// every value of the field
+		g := []int{0, 4}
+		for range vs {
+			g = append(g, len(ops)+len(g)-2, len(ops)+len(g)-1)
+		}
+		groups = append(groups, g)
+		for _, v := range vs {
 			ops = append(ops,
 				vop{fmt.Sprintf("tovalue({%s: %s})", key, v), pr(fmt.Sprintf("tovalue({%s: %s})", key, v))},
 				vop{fmt.Sprintf("display({%s: %s})", key, v), fmt.Sprintf("display({%s: %s})", key, v)})
@@ -117,14 +129,15 @@ func driver(ops []vop) string {
 	sb.WriteString("  else error(\"bad op\") end;\n")
 	fmt.Fprintf(&sb, `.[] as $c
 | (%s | println)
-| (try ($c.f | open | decode($c.d; $c.o)) catch ("ERR-DECODE: " + tostring)) as $v
-| if ($v | type) == "string" then ($v | println)
-  else
-    ( $c.s[] as $i
-    | (%s | println)
-    , ($v | try vop($i) catch ("ERR: " + tostring) | println)
-    )
-  end
+, ( (try ($c.f | open | decode($c.d; $c.o)) catch ("ERR-DECODE: " + tostring)) as $v
+  | if ($v | type) == "string" then ($v | println)
+    else
+      ( $c.s[] as $i
+      | (%s | println)
+      , ($v | try vop($i) catch ("ERR: " + tostring) | println)
+      )
+    end
+  )
 `, jqString(markCase), jqString(markOp))
 	return sb.String()
 }
@@ -304,13 +317,18 @@ func hash64(s string) uint64 {
 }
 
 func valueHistories(r *core.Run) {
-	ops, nAlpha, obs, gapc := valueOps()
+	ops, nAlpha, obs, gapc, groups := valueOps()
 	prog := driver(ops)
-	valueHistoriesGenerated(r, ops, nAlpha, gapc, prog)
-	valueHistoriesCorpus(r, ops, nAlpha, obs, gapc, prog)
+	sub := os.Getenv("C18_VALHIST")
+	if sub == "" || sub == "generated" {
+		valueHistoriesGenerated(r, ops, nAlpha, obs, gapc, groups, prog)
+	}
+	if sub == "" || sub == "corpus" {
+		valueHistoriesCorpus(r, ops, nAlpha, obs, gapc, prog)
+	}
 }
 
-func valueHistoriesGenerated(r *core.Run, ops []vop, nAlpha, gapc int, prog string) {
+func valueHistoriesGenerated(r *core.Run, ops []vop, nAlpha, obs, gapc int, groups [][]int, prog string) {
 	ls := layouts(core.Pick(r, 2, 3))
 	const parts = 4 // a unit = one layout x one quarter of the first operations
 	var cases, evals, withGap, units int64
@@ -358,10 +376,22 @@ func valueHistoriesGenerated(r *core.Run, ops []vop, nAlpha, gapc int, prog stri
 				}
 			}
 			units++
+			// (1) every operation, then the combined observation; (2) for every option
+			// field all ordered pairs (a, b) of the operations that name it or leave it unset
 			var cs []vcase
-			for a := part * nAlpha / parts; a < (part+1)*nAlpha/parts; a++ {
-				for b := 0; b < nAlpha; b++ {
-					cs = append(cs, mk([]int{a, b}))
+			for a := 0; a < nAlpha; a++ {
+				if a%parts == part {
+					cs = append(cs, mk([]int{a, obs}))
+				}
+			}
+			for gi, g := range groups {
+				if gi%parts != part {
+					continue
+				}
+				for _, a := range g {
+					for _, b := range g {
+						cs = append(cs, mk([]int{a, b}))
+					}
 				}
 			}
 			got, err := runCases(files, prog, cs)
@@ -514,7 +544,7 @@ func replayValHist(r *core.Run, raw json.RawMessage) bool {
 	if err := json.Unmarshal(raw, &c); err != nil || len(c.Seq) == 0 {
 		return false
 	}
-	ops, _, _, _ := valueOps()
+	ops, _, _, _, _ := valueOps()
 	prog := driver(ops)
 	idx := func(name string) int {
 		for i, o := range ops {
